@@ -88,6 +88,44 @@ func (c *Check) nilElementScans() {
 			}
 		}
 	}
+	// the scan written as a library search for nil: slices.Contains(list, nil) / Index / ContainsFunc
+	for _, g := range withHelpers(cv, 2) {
+		for _, b := range g.Blocks {
+			for _, ins := range b.Instrs {
+				call, ok := ins.(*ssa.Call)
+				if !ok || call.Call.StaticCallee() == nil || fnPkgPath(call.Call.StaticCallee()) != "slices" || len(call.Call.Args) != 2 {
+					continue
+				}
+				sl, ok := call.Call.Args[0].(*ssa.UnOp)
+				if !ok || sl.Op != token.MUL {
+					continue
+				}
+				fa, ok := sl.X.(*ssa.FieldAddr)
+				if !ok {
+					continue
+				}
+				T, F := fieldOf(fa.X.Type(), fa.Field)
+				if T != "profile.Sample" && T != "profile.Location" {
+					continue
+				}
+				if k, isConst := call.Call.Args[1].(*ssa.Const); !isConst || !k.IsNil() {
+					continue
+				}
+				n++
+				key := fmt.Sprintf("nil-scan:%s.%s", T, F)
+				outer := loopHeaderAround(b)
+				if outer == nil {
+					c.ok("C02-R11", key, p.relFile(call.Pos()), "elements of "+T+"."+F+" are searched for nil in "+fnName(g), "the search is not nested in a loop over owners in this function")
+					continue
+				}
+				if iterationSkips(outer, b, func(ssa.Value) int { return 0 }) {
+					c.bad("C02-R11", key, p.relFile(call.Pos()), "CheckValid can finish a "+T+" without searching its "+F+" list for nil elements: a profile whose references could not be resolved (nil left by postDecode) is returned by the parser, and String, Write, Copy and Compact dereference the nil")
+				} else {
+					c.ok("C02-R11", key, p.relFile(call.Pos()), "every "+T+" has its "+F+" list searched for nil elements", "no path through an iteration of the loop over the owners avoids the search (other than returning an error)")
+				}
+			}
+		}
+	}
 	if n == 0 {
 		c.undecided("C02-R11", "nil-scan", p.relFile(cv.Pos()), "no nil test on the elements of a list of a sample or location found in CheckValid")
 	}
